@@ -526,10 +526,20 @@ fn pair_case(ctx: &mut Ctx, wl: &str, case: u64, rng: &mut Rng) {
             fails.push(("verdict_differs".into(), json!({"on": status_name(on.status), "off": status_name(off.status), "certificates": cert_detail})));
         }
     }
-    if on.status == SolverStatus::Solved && fails.is_empty() {
-        // size-dependent relaxation: c(m) = 10 sqrt(#overlap entries + 1)
+    // literal "infinite" right-hand sides that the solver keeps as data (presolve off): the documented residual
+    // test is then relative to |b| = 1e20, every consistency constraint of the decomposition is "met" to 1e12,
+    // and `Solved` says nothing about the point (seen: x ~ 3e4, |Ax+s-b| ~ 3e4, status Solved, while the
+    // undecomposed run gives up).  Nothing about the decomposition can be read off such a pair.
+    let literal_inf = with_inf && !st_on.presolve_enable;
+    if literal_inf {
+        ctx.bump("pairs_with_literal_1e20_data_(optimality_oracles_skipped)");
+    }
+    if on.status == SolverStatus::Solved && fails.is_empty() && !literal_inf {
+        // size-dependent relaxation: every overlap entry adds one consistency constraint that the decomposed
+        // solve meets to tol_feas only, and their violations add up in the mapped-back gap and residuals:
+        // c(m) = 10 (#overlap entries + 1)
         let overlaps = (on.data_m as f64 - p.m() as f64).max(0.0);
-        let relax = 10.0 * (overlaps + 1.0).sqrt();
+        let relax = 10.0 * (overlaps + 1.0);
         let pm = presolve_model(p, &st_on, &on, bound);
         let ev = kkt::evaluate(p, &on.x, &on.s, &on.z, &pm.keep, bound, &pm.ceff);
         for (o, d) in kkt::judge_solved(&ev, st_on.tol_feas, st_on.tol_gap_abs, st_on.tol_gap_rel, relax) {
@@ -546,7 +556,7 @@ fn pair_case(ctx: &mut Ctx, wl: &str, case: u64, rng: &mut Rng) {
             for (ci, (c, r)) in pm.ceff.iter().zip(cone_ranges(&pm.ceff)).enumerate() {
                 let (mg, _) = vc::margin(c, &kept[r], true);
                 ctx.observe_max("neg_dual_margin_over_scale", -mg / zscale);
-                if !(mg >= -1e-6 * relax * zscale) {
+                if !(mg >= -1e-5 * (overlaps + 1.0).sqrt() * zscale) {
                     fails.push(("original_problem:z_not_in_Kstar".into(), json!({"cone_index": ci, "cone": vc::cone_name(c), "margin": mg, "dual_scale": zscale})));
                     break;
                 }
